@@ -13,7 +13,9 @@ SeqSet(s) == { s[i] : i \in 1..Len(s) }
 TRevC ==
    /\ Ev("RevC")
    /\ LET P == PosOfRec(Tr[l].p)  m == MvOfSeq(Tr[l].m)  Q == PosOfRec(Tr[l].q) IN
-      /\ Chk("ForwardMove", IsLegalMove(P, m) /\ SamePlace(Play(P, m), Q), Tr[l].m)
+      EpPlausible(P) =>     \* synthetic placements may claim an impossible ep square: outside the domain
+      /\ Chk("Domain", Normalised(P), P.e)
+      /\ Chk("ForwardMove", IsPredecessor(P, m, Q), Tr[l].m)
       /\ Chk("CompleteNoEp", ExpectedUnMove(P, m, FALSE) \in SeqSet(Tr[l].f), <<ExpectedUnMove(P, m, FALSE), Tr[l].f>>)
       /\ Chk("CompleteAllEp", ExpectedUnMove(P, m, TRUE) \in SeqSet(Tr[l].t), <<ExpectedUnMove(P, m, TRUE), Tr[l].t>>)
 
@@ -25,7 +27,7 @@ TRevQ ==
          LET u == Tr[l].ums[i]  P == PosOfRec(u)  m == Mv(u.um[1], u.um[2], u.um[3]) IN
          /\ Chk("RestoredFields", P.c = u.um[5] /\ P.e = u.um[6] /\ P.h = 0 /\ P.w = ~Q.w, u.um)
          /\ Chk("UnMoveLegal", IsLegalMove(P, m), u.um)
-         /\ Chk("UnMoveLeadsBack", SamePlace(Play(P, m), Q), u.um)
+         /\ Chk("UnMoveLeadsBack", SamePlace(Fixup(Play(P, m)), Q), u.um)
          /\ Chk("CapturedPiece", IF IsEpCapture(P.b, P.e, m) THEN u.um[4] = EMPTY ELSE P.b[m.to] = u.um[4], u.um)
 
 TInit == l = 1
